@@ -43,6 +43,13 @@ def plan(tier, seed):
     for ph, L in itertools.product(PHSP[:3], (0, 1, 2, 3)):
         cases.append({"cls": "reduction", "phsp": ph, "L": L, "cost": 2})
     cases.append({"cls": "reduction_nonrel", "cost": 1})
+    # call histories inside one process (formulate() caches its matrix templates per n_channels): every call of a
+    # sequence with the same n_channels and varying n_poles / arguments is judged by the same post-conditions
+    seqs = [[1, 2, 1], [2, 1, 3], [3, 1], [1, 3, 2, 1]]
+    for c in (1, 2):
+        for k, seq in enumerate(seqs if tier != "quick" else seqs[:3]):
+            cases.append({"cls": "history", "klass": "NonRelativisticPVector", "n_ch": c, "seq": seq, "cost": 2 * len(seq)})
+            cases.append({"cls": "history", "klass": "RelativisticPVector", "n_ch": c, "seq": seq, "k": k, "cost": 4 * len(seq)})
     return cases
 
 
@@ -76,7 +83,7 @@ def _judge_nonrel(rec, ctx, F, n_ch, n_poles):
     rng = ctx["case_rng"]
     n_s = 12
     env, desc = random_env(rng, n_ch, n_poles, n_s)
-    feats = {"cls": "NonRelativisticPVector", "n_ch": n_ch, "n_poles": n_poles}
+    feats = {"cls": "NonRelativisticPVector", "n_ch": n_ch, "n_poles": n_poles, "history_position": ctx.get("history_position")}
     Km = _mat(lambda i, j: K.NonRelativisticKMatrix.parametrization(i=i, j=j, s=S["s"], pole_position=S["m"], pole_width=S["Gamma"],
                                                                    residue_constant=S["gamma"], n_poles=n_poles, pole_id=S["R"]), n_ch, n_ch)
     Pv = _mat(lambda i: K.NonRelativisticPVector.parametrization(i=i, s=S["s"], pole_position=S["m"], pole_width=S["Gamma"],
@@ -146,7 +153,7 @@ def _judge_rel(rec, ctx, F, n_ch, n_poles, kw):
     L = sp.sympify(kw.get("angular_momentum", 0))
     radius = sp.sympify(kw.get("meson_radius", 1))
     f_hat = bool(kw.get("return_f_hat", False))
-    feats = {"cls": "RelativisticPVector", "n_ch": n_ch, "n_poles": n_poles, "L": str(L), "phsp": phsp.__name__,
+    feats = {"history_position": ctx.get("history_position"), "cls": "RelativisticPVector", "n_ch": n_ch, "n_poles": n_poles, "L": str(L), "phsp": phsp.__name__,
              "radius": str(radius), "f_hat": f_hat, "non_default_phsp": phsp is not D.PhaseSpaceFactor}
     rec.case(("RelativisticPVector", n_ch, n_poles, str(L), str(radius), phsp.__name__, f_hat),
              n_ch * n_poles >= 2 or phsp is not D.PhaseSpaceFactor or L != 0 or radius != 1,
@@ -204,6 +211,20 @@ def run_case(case, rec, ctx):
     from vmon.refmodel.kmatrix import eval_matrix, random_env, symbols
     K = ctx["K"]
     rng = ctx["case_rng"] = np.random.default_rng([ctx["seed"], 10, case["idx"]])
+    if case["cls"] == "history":
+        rec.case(("history", case["klass"], case["n_ch"], tuple(case["seq"])), True, cls="history:" + case["klass"], n_channels=case["n_ch"])
+        for j, n_poles in enumerate(case["seq"]):
+            ctx["history_position"] = j
+            if case["klass"] == "NonRelativisticPVector":
+                if j == 1:
+                    K.NonRelativisticPVector.formulate(case["n_ch"], n_poles, parametrize=False)
+                K.NonRelativisticPVector.formulate(case["n_ch"], n_poles)
+            else:
+                ph = PHSP[(j + case["k"]) % len(PHSP)]
+                K.RelativisticPVector.formulate(case["n_ch"], n_poles, return_f_hat=bool(j % 2), phsp_factor=getattr(D, ph),
+                                                angular_momentum=(j + case["k"]) % 3, meson_radius=[1, 2.5][j % 2])
+        ctx["history_position"] = None
+        return
     if case["cls"] == "NonRelativisticPVector":
         K.NonRelativisticPVector.formulate(case["n_ch"], case["n_poles"])
         return
